@@ -598,6 +598,44 @@ def check_C08(tier):
     return v.finish()
 
 
+def hold_C09(v, sc):
+    """timing clause of C09 on the REAL clock in no-copy mode with a consumer that holds slices about a Timeout (harness/freeh/hold_test.go),
+    under the timer-channel semantics of the harness module AND under GODEBUG=asynctimerchan=1 (what the repository's go.mod files select;
+    testing/synctest refuses it, so virtual time cannot show it); judged by Mon_JoinHold.tla (seeded change C09-f)"""
+    binary = os.path.join(sc, "freeh-hold.test")
+    build_test("freeh", binary, race=False, tags="")
+    cov = {}
+    for label, godebug in (("default", ""), ("asynctimerchan=1", "asynctimerchan=1")):
+        sub = os.path.join(sc, "hold-" + ("new" if not godebug else "old"))
+        os.makedirs(sub, exist_ok=True)
+        stage_specs(sub)
+        rc, out, wall = run_test(binary, "TestRecordHold$", env=dict(OUT_DIR=sub, HOLD_RUNS=12 if v.tier == "quick" else 120, GODEBUG=godebug), timeout=1500)
+        if rc != 0 or "HOLD runs=" not in out:
+            raise Inconclusive("hold recorder died (%s)\n%s" % (label, out[-2000:]))
+        recs = [json.loads(l) for l in open(os.path.join(sub, "hold.ndjson"))]
+        res = tlc(sub, "Mon_JoinHold", cfg="Mon_JoinHold.cfg", workers=1, timeout=600)
+        if res.crashed or not res.finished and not res.inv_violated or res.distinct < len(recs) + 1:
+            raise Inconclusive("Mon_JoinHold did not consume the whole log (%d records, %d states)\n%s" % (len(recs), res.distinct, res.out[-2000:]))
+        bad = []
+        if res.inv_violated:
+            sets = re.findall(r"/\\ viol = \{(.*)\}", res.out)
+            bad = [(int(a), int(b)) for a, b in re.findall(r"<<(\d+), (\d+)>>", sets[-1])] if sets else []
+            if not bad:
+                raise Inconclusive("Mon_JoinHold rejects the log but the offending slices cannot be read\n" + res.out[-2000:])
+        cfgs = {r["tr"]: r for r in recs if r["ev"] == "Reset"}
+        for tr, k in bad[:3]:
+            c = cfgs[tr]
+            r = next(x for x in recs if x["ev"] == "S" and x["tr"] == tr and x["k"] == k)
+            v.violation("C09: real clock, %s in no-copy mode (JoinSize %d, Timeout %d us, GODEBUG %s): slice %d has %d elements, is not the last one and was "
+                        "received %d us after the release of the previous slice was signalled - earlier than Timeout (hold trace %d)"
+                        % ({"join": "v2 join", "v1": "v1 join"}.get(c["kind"], c["kind"]), c["J"], c["T"], label, k, r["len"], r["dt"], tr), dict(kind="join-hold", godebug=godebug, trace=[x for x in recs if x["tr"] == tr]))
+        short = sum(1 for r in recs if r["ev"] == "S" and r["k"] > 1 and not r["final"] and r["len"] < cfgs[r["tr"]]["J"])
+        cov[label] = dict(traces=len(cfgs), slices=sum(1 for r in recs if r["ev"] == "S"), short_nonfinal_slices_judged=short, violations=len(bad), wall_s=round(wall, 1))
+        if short == 0:
+            raise Inconclusive("hold recorder produced no short non-final slice (vacuous)")
+    v.cov["real_clock_hold"] = cov
+
+
 def check_C09(tier):
     v = Verdict("C09", tier, "model_checking")
     jobs = [("MC_Join", big(tier, "MC_Join_free"), "v2 join, free regime"), ("MC_Join", big(tier, "MC_Join_urgent"), "v2 join, urgent regime"),
@@ -607,6 +645,7 @@ def check_C09(tier):
         out, extra = [], {}
         joinind_C10(v, sc)   # the timing clause of C09 is part of the same inductive invariant
         uniteind(v, sc)
+        hold_C09(v, sc)
         for what in ("join", "unite"):
             s, info = tlc_schedules(v, sc, rng, what, n_of(tier, 600, 20000))
             out += s
